@@ -66,4 +66,15 @@ func init() {
 		{Name: "clone-shares-bitmap", File: "cardinality/roaring32.go", Old: "\t\tbitmap: s.bitmap.Clone(),", New: "\t\tbitmap: s.bitmap,", Expect: "C13-R4-clone|bitmap32.Clone"},
 		{Name: "or-fallback-dropped", File: "cardinality/roaring32.go", Old: "\t\ttypedProvider.Each(func(nextValue uint32) bool {\n\t\t\ts.Add(nextValue)\n\t\t\treturn true\n\t\t})", New: "\t\ttypedProvider.Each(func(nextValue uint32) bool {\n\t\t\treturn s.Contains(nextValue)\n\t\t})", Expect: "C13-R2-fallback|bitmap32.Or:fallback"},
 	}
+	mutations["C12"] = []Mutation{
+		{Name: "set-keeps-deleted", File: "graph/properties.go", Old: "\tif s.Deleted != nil {\n\t\tdelete(s.Deleted, key)\n\t}\n\n\treturn s\n}\n\nfunc (s *Properties) SetAll", New: "\treturn s\n}\n\nfunc (s *Properties) SetAll", Expect: "C12-R1-effect-summary|Properties.Set"},
+		{Name: "delete-keeps-modified", File: "graph/properties.go", Old: "\tif s.Modified != nil {\n\t\tdelete(s.Modified, key)\n\t}\n", New: "", Expect: "C12-R1-effect-summary|Properties.Delete"},
+		{Name: "addkinds-keeps-deleted", File: "graph/node.go", Old: "\t\ts.AddedKinds = s.AddedKinds.Add(kind)\n\t\ts.DeletedKinds = s.DeletedKinds.Remove(kind)\n", New: "\t\ts.AddedKinds = s.AddedKinds.Add(kind)\n", Expect: "C12-R1-effect-summary|Node.AddKinds"},
+		{Name: "merge-regression", File: "graph/properties.go", Old: "\t\tdelete(s.Deleted, otherKey)\n", New: "", Expect: "C12-R3-abstract-state|Properties.Merge"},
+		{Name: "merge-deleted-keeps-modified", File: "graph/properties.go", Old: "\t\tdelete(s.Map, otherDeletedKey)\n\t\tdelete(s.Modified, otherDeletedKey)\n", New: "\t\tdelete(s.Map, otherDeletedKey)\n", Expect: "C12-R3-abstract-state|Properties.Merge"},
+		{Name: "driver-ignores-deleted", File: "drivers/pg/node.go", Old: "\t\tif deletedProperties := properties.DeletedProperties(); len(deletedProperties) > 0 {\n\t\t\tupdateStatements = append(updateStatements, query.DeleteProperties(query.Node(), deletedProperties...))\n\t\t}\n", New: "", Expect: "C12-R5-delta-readers|drivers/pg.nodeQuery.Update"},
+		{Name: "clone-aliases-deleted", File: "graph/properties.go", Old: "\t\tnewProperties.Deleted = make(map[string]struct{}, len(s.Deleted))\n\t\tfor key := range s.Deleted {\n\t\t\tnewProperties.Deleted[key] = struct{}{}\n\t\t}", New: "\t\tnewProperties.Deleted = s.Deleted", Expect: "C12-R6-clone|Properties.Clone:Deleted"},
+		{Name: "set-clears-deleted-conditionally", File: "graph/properties.go", Old: "\tif s.Deleted != nil {\n\t\tdelete(s.Deleted, key)\n\t}\n\n\treturn s\n}\n\nfunc (s *Properties) SetAll", New: "\tif s.Deleted != nil && value != nil {\n\t\tdelete(s.Deleted, key)\n\t}\n\n\treturn s\n}\n\nfunc (s *Properties) SetAll", Expect: "C12-R1-effect-summary|Properties.Set"},
+		{Name: "set-wipes-modified", File: "graph/properties.go", Old: "\t} else {\n\t\ts.Modified[key] = struct{}{}\n\t}\n", New: "\t} else {\n\t\ts.Modified = map[string]struct{}{key: {}}\n\t}\n", Expect: "C12-R2-frame|Properties.Set"},
+	}
 }
